@@ -21,6 +21,7 @@ type Solver struct {
 	in        *bufio.Writer
 	inRaw     io.WriteCloser
 	out       *bufio.Reader
+	lines     chan string
 	isEm      map[int]bool
 	emStack   []int
 	marks     []int
@@ -56,6 +57,18 @@ func (s *Solver) start() {
 	s.inRaw = in
 	s.in = bufio.NewWriterSize(in, 1<<16)
 	s.out = bufio.NewReader(outp)
+	lines := make(chan string, 64)
+	s.lines = lines
+	go func(r *bufio.Reader) { // reader goroutine: ends when the pipe closes
+		defer close(lines)
+		for {
+			l, err := r.ReadString('\n')
+			if err != nil {
+				return
+			}
+			lines <- l
+		}
+	}(s.out)
 	s.isEm = map[int]bool{}
 	s.emStack = nil
 	s.marks = nil
@@ -176,17 +189,29 @@ func (s *Solver) check() string {
 	return line
 }
 
+// solverHang: the solver did not answer within its own timeout plus a grace period (z3 4.8.12 does not honour
+// :timeout inside some preprocessing steps); the process is killed and the path is given up as inconclusive.
+type solverHang string
+
 func (s *Solver) readLine() string {
+	// watchdog: the per-query timeout plus a generous grace period
+	limit := time.Duration(s.timeout)*time.Millisecond + 90*time.Second
+	timer := time.NewTimer(limit)
+	defer timer.Stop()
 	for {
-		l, err := s.out.ReadString('\n')
-		if err != nil {
-			panic(fmt.Sprintf("solver pipe: %v", err))
+		select {
+		case l, ok := <-s.lines:
+			if !ok {
+				panic("solver pipe: closed")
+			}
+			l = strings.TrimSpace(l)
+			if l == "" {
+				continue
+			}
+			return l
+		case <-timer.C:
+			panic(solverHang(fmt.Sprintf("no answer from the solver within %s", limit)))
 		}
-		l = strings.TrimSpace(l)
-		if l == "" {
-			continue
-		}
-		return l
 	}
 }
 
